@@ -15,6 +15,7 @@ from hypothesis import strategies as st
 from .. import dumps, env, gen, observe, xmlw
 from ..canon import diff, fingerprint
 from ..harness import Disc, Sub
+from ..refdb import RefDB
 
 PROPERTY = 'C07'
 LEVEL = 'exploration'
@@ -219,6 +220,20 @@ def _run_route(route, xmls, workdir, out, label):
     return states
 
 
+def _check_installed(case, states, out, label):
+    """After every round the installed lexicons are those the documented rules give: a lexicon
+    whose id:version is installed is skipped, an extension whose base is not installed (before
+    the call) is skipped, every other lexicon of the resource is added."""
+    ref = RefDB()
+    for rnd, stt in enumerate(states):
+        for res in case['resources']:
+            ref.add_resource(res)
+        if sorted(ref.installed()) != stt['installed']:
+            out.append(Disc('installed-set-not-as-documented', f'{label} round {rnd + 1}',
+                            sorted(ref.installed()), stt['installed']))
+            return
+
+
 def oracle(case):
     import wn
     out: list[Disc] = []
@@ -234,9 +249,13 @@ def oracle(case):
     if out:
         # the baseline itself misbehaved: report as is (kinds say so)
         return out
+    _check_installed(case, base_states, out, 'xml')
+    if out:
+        return out
     route = case['route']
     if route != 'xml':
         states = _run_route(route, xmls, route_dir, out, route)
+        _check_installed(case, states, out, route)
         # round 1 and fixed point
         for name, a, b in (('round1', base_states[0], states[0]),
                            ('final', base_states[-1], states[-1])):
